@@ -103,12 +103,13 @@ Qed.
 
 (* ---- curry, flip ---- *)
 Theorem validate_exact_curry typs :
-  add_curry typs = Ok <-> exists p1 p2 ps rs v, typs = [ASig (TCons p1 (TCons p2 ps)) rs v].
+  add_curry typs = Ok <-> exists p1 p2 ps rs, typs = [ASig (TCons p1 (TCons p2 ps)) rs false].
 Proof.
   split.
   - unfold add_curry. split_args typs; intros H; try discriminate H.
-    inv_ok H. destruct ps as [|p1 [|p2 ps]]; cbn in *; try discriminate. do 5 eexists; reflexivity.
-  - intros (p1 & p2 & ps & rs & v & ->). reflexivity.
+    destruct a; try discriminate H. destruct variadic; try discriminate H.
+    destruct ps as [|p1 [|p2 ps]]; cbn in *; try discriminate. do 4 eexists; reflexivity.
+  - intros (p1 & p2 & ps & rs & ->). reflexivity.
 Qed.
 
 (* ---- dup ---- *)
@@ -134,7 +135,7 @@ Proof. unfold add_tuple. destruct typs; cbn; split; congruence. Qed.
 
 (* ---- uncurry ---- *)
 Theorem validate_exact_uncurry typs :
-  add_uncurry typs = Ok <-> exists a ps rs v v', typs = [ASig (t1 (a)) (t1 (ASig ps rs v')) v].
+  add_uncurry typs = Ok <-> exists a ps rs, typs = [ASig (t1 (a)) (t1 (ASig ps rs false)) false].
 Proof.
   split.
   - unfold add_uncurry. split_args typs; intros H; try discriminate H.
@@ -142,8 +143,9 @@ Proof.
     destruct ps as [|p1 [|p2 ps]]; try discriminate H.
     destruct rs as [|r1 [|r2 rs]]; cbn in H; try discriminate H.
     destruct r1; try discriminate H.
-    do 5 eexists; reflexivity.
-  - intros (a & ps & rs & v & v' & ->). reflexivity.
+    destruct variadic, variadic0; try discriminate H.
+    do 3 eexists; reflexivity.
+  - intros (a & ps & rs & ->). reflexivity.
 Qed.
 
 (* ---- union, intersect ---- *)
